@@ -69,8 +69,11 @@ def r1_inclusion(ctx, chk, rule="C05.1"):
     fs = ret[1][0] if ret[0] == "tup" and ret[1] else None
     if fs is not None and fs[0] == "idx" and fs[2] == C(0) and fs[1][0] == "mcall" and fs[1][2] == "solve_total_rewards":
         chk.ok(rule, g.where(), "solve()[0] = solve_total_rewards()[0], unmodified")
-    else:
+    elif fs is not None and ((fs[0] == "idx" and fs[1][0] == "mcall" and fs[1][2] in ("solve_total_rewards", "solve_reachability")) or fs[0] in ("c", "list")):
+        # another slot / the other phase's result / a constant: positively not the final strategies
         chk.violation(rule, g.where(), "solve()[0] is `%s`" % show(fs), expected="solve_total_rewards()[0]", found=show(fs), construct="solve() final strategies slot")
+    else:
+        chk.undecided(rule, g.where(), "solve() slot 0 is `%s`: not traced back to solve_total_rewards()[0]" % (show(fs) if fs is not None else show(ret))[:120])
     h = ctx.func("tad.py::Solver.solve_total_rewards")
     sh = SymX(ctx, h, "Solver", inline_depth=0).run()
     r0 = sh.ret[1][0] if sh.ret[0] == "tup" and sh.ret[1] else None
